@@ -12,6 +12,11 @@ import CnbVerif.Model.RuntimeTypes
 Only the plain data types of `Model/RuntimeTypes.lean` are used; nothing here refers to the model's functions, to the
 order in which the code reads its inputs, or to the generated constants. The numbers (0, 100, API 0.10, two / three
 arguments, the mandatory variables) are the property's and the Buildpack API's.
+
+The environment is part of the invocation *with its values* (`Vars`: each variable unset, or set to some text, or set to
+bytes that are not Unicode). "Missing mandatory environment" is judged per variable (`provided`), independent of what any
+other variable holds: there is no operating system, architecture or distribution for which a mandatory variable stops being
+mandatory.
 -/
 namespace CnbVerif.Runtime.Spec
 open CnbVerif.Runtime
@@ -31,13 +36,31 @@ def argsRight : Exe → Nat → Bool
   | .build, n => n = 3
   | .other, _ => false
 
-/-- mandatory environment: the buildpack directory and the target description; the architecture variant is optional
+/-- A variable is *provided* when it is set to text: any text at all — the empty string, `windows`, anything. An unset
+variable is missing; so is one whose bytes are not Unicode, which cannot be handed to the buildpack as the `String` the
+context promises. Whether a variable is provided is a matter of that variable alone: no value of any other variable
+can stand in for it or waive it. -/
+def provided : Option EnvVal → Bool
+  | some (.text _) => true
+  | _ => false
+
+/-- the target description: os, arch, distro name, distro version. The architecture variant is optional
 (buildpack.md; libcnb documents os, arch, distro name and version as always present) -/
-def mandatoryPresent (v : Vars) : Bool := v.bpDir && v.os && v.arch && v.dname && v.dver
+def targetPresent (v : Vars) : Bool := provided v.os && provided v.arch && provided v.dname && provided v.dver
+
+/-- mandatory environment: the buildpack directory and the target description -/
+def mandatoryPresent (v : Vars) : Bool := provided v.bpDir && targetPresent v
 
 /-- all gates open: supported API, executable named after a phase, right argument count, mandatory environment -/
 def gateOpen (i : Invocation P L S D) : Bool :=
   apiSupported i.desc && argsRight i.exe i.nargs && mandatoryPresent i.vars
+
+/-- the phase is determined — supported API (which presupposes the buildpack directory, where buildpack.toml lives), the
+executable named after a phase, the right arguments —, so that whatever is wrong from here on is *an error of that phase*
+("on any error calls the buildpack's error handler once"). A missing target variable behind this point is both: a closed
+gate (detect/build code is never reached, exit is not 0) and an error of the phase (handler once, exit not 0 / 100). -/
+def phaseEntered (i : Invocation P L S D) : Bool :=
+  apiSupported i.desc && argsRight i.exe i.nargs && provided i.vars.bpDir
 
 def descValid : Desc → Bool
   | .api _ _ ok => ok
@@ -105,7 +128,15 @@ def checks [DecidableEq P] [DecidableEq L] [DecidableEq S] [DecidableEq D]
   (if !gateOpen i then
     [ ("detect code ran behind a closed gate", !o.detectRan),
       ("build code ran behind a closed gate", !o.buildRan),
-      ("exit 0 behind a closed gate", decide (o.exit ≠ 0)) ]
+      ("exit 0 behind a closed gate", decide (o.exit ≠ 0)),
+      ("launch.toml touched behind a closed gate", o.launch == .untouched),
+      ("store.toml touched behind a closed gate", o.store == .untouched),
+      ("build SBOM file touched behind a closed gate", Fmt.all.all (fun f => o.bsbom f == .untouched)),
+      ("launch SBOM file touched behind a closed gate", Fmt.all.all (fun f => o.lsbom f == .untouched)) ] ++
+    (if phaseEntered i then   -- the only thing missing is a mandatory target variable: an error of the phase
+      [ ("mandatory variable missing: on_error not called exactly once", o.onError == 1),
+        ("mandatory variable missing: exit status 0 or 100", decide (o.exit ≠ 0 ∧ o.exit ≠ 100)) ]
+     else [])
    else match i.exe with
     | .other => []   -- unreachable: a wrong executable name closes the gate
     | .detect =>
